@@ -10,6 +10,8 @@ class StrSub(str):
 
 
 CONC = {'u': [1, 1.0, True], 'v': ['x', StrSub('x'), 'x']}
+# a second concretisation: equal-but-distinct numbers whose hashes collide in CPython (hash(-1) == hash(-2))
+CONC2 = {'u': [-1, -1.0, -1], 'v': [-2, -2.0, -2]}
 
 
 class Mapping(collections.abc.MutableMapping):
@@ -49,6 +51,8 @@ def run(ctl, A, sc):
         ctl.log('FuncStart', j=j)
         if sc.get('dur', 0) > 0:
             await asyncio.sleep(sc['dur'])
+        if sc.get('retnone'):
+            return None          # a legitimate result that is falsy / None
         return Val(j)
 
     def body():
@@ -68,13 +72,15 @@ def run(ctl, A, sc):
         async def call(j, args, kw):
             cur[0] = j
             v = await wrapped(*args, **kw)
-            ctl.log('CallEnd', j=j, inv=getattr(v, 'j', -1))
+            ctl.log('CallEnd', j=j, inv=-2 if (v is None and sc.get('retnone')) else getattr(v, 'j', -1))
+
+        table = CONC2 if sc.get('conc') == 2 else CONC
 
         def conc_sig(sig, variant):
-            args = tuple(CONC[v][(i + variant) % 3] for i, v in enumerate(sig['args']))
+            args = tuple(table[v][(i + variant) % 3] for i, v in enumerate(sig['args']))
             kw = {}
             for i, (n, v) in enumerate(sig['kw']):
-                kw[n] = CONC[v][(i + 2 * variant + 1) % 3]
+                kw[n] = table[v][(i + 2 * variant + 1) % 3]
             return args, kw
 
         async def main():
